@@ -18,7 +18,7 @@ P = {
  "C04": ("hist", "exploration", "stateful PBT with per-snapshot frozen models (rapid)",
          "Histories over the original and up to 4 snapshots (snapshots of snapshots, FlushRevert/Close on snapshots, rejected writes); every open snapshot is re-read against the model frozen at Snapshot() time, the original and the file are checked for non-interference.", "3 C04"),
  "C05": ("sched", "exploration", "schedule-generating PBT: harness-owned cooperative scheduler + version-interval oracle",
-         "One mutator, one flusher and 1-3 readers run under a generated schedule that switches at every StoreFile call, visitor callback and verifYield hook point; results are validated post hoc against the complete version log (single-version reads, no lost update, flush name order). Two yield points per file call (before it starts, after it took effect). Deterministic and shrinkable; interleavings finer than yield points are out of reach.", "3 C05"),
+         "One mutator, one flusher and 1-3 readers run under a generated schedule that switches at every StoreFile call, visitor callback and verifYield hook point; results are validated post hoc against the complete version log (single-version reads, no lost update, flush name order). Two yield points per file call (before it starts, after it took effect). Schedules are per-yield random walks, picks in runs, or priority schedules with change points (PCT style). Deterministic and shrinkable; interleavings finer than yield points are out of reach.", "3 C05"),
  "C06": ("hist", "exploration", "PBT of range queries vs model ranges, 3-way depth cross-check",
          "Contents in every cache state and under three comparators; range queries through all six APIs compared with the model range, early stop honoured, depths checked against full-scan consistency, binary-tree validity and the hook walk.", "3 C06"),
  "C07": ("fault", "fault_enumeration", "single-fault enumeration over generated histories (every I/O call x torn lengths)",
@@ -40,7 +40,7 @@ P = {
  "C15": ("hist", "exploration", "stateful PBT with counting callbacks",
          "ItemAlloc/AddRef/DecRef counting callbacks; no negative count, positive count on every handed-out, visitor-passed or reachable item, zero balance once everything is closed. One known finding (K1) is excluded by construction and replayed separately.", "3 C15"),
  "C16": ("hist", "exploration", "exhaustive size enumeration + PBT of contents",
-         "Every n in 0..130 and around 1024/2048/3072/4096 in three cache states through Len, 8 block-visit variants and VisitItemsRandom (exactly-once coverage), plus generated key sets through the history interpreter.", "3 C16"),
+         "Every n in 0..130 and around k*1024 up to 12290 in four cache states, plus spine-shaped (depth = n) collections of 21 sizes, through Len, 8 block-visit variants and VisitItemsRandom (exactly-once coverage), plus generated key sets through the history interpreter.", "3 C16"),
  "C17": ("hist", "exploration", "PBT over all 256 callback subsets + differential vs callback-free run",
          "Callback subsets enumerated round-robin over generated histories with the C01/C02/C06/C14/C19 oracles on; the callback-free reference run re-supplies comparators with SetCollection; the file written must be byte-identical to the one written without callbacks; a fault phase repeats C07's enumeration under drawn subsets (differential).", "3 C17"),
  "C18": ("hist", "exploration", "PBT of iterator scripts and re-entrant visitors",
